@@ -5,7 +5,7 @@ R-FIELDS  clone / clone_deeper copy every data member; equal compares kind, valu
           children; subst writes only into a fresh clone
 """
 from ..front import AnalysisBroken
-from ..facts import walk, calls, short
+from ..facts import walk, calls, short, inline_tail_delegate
 from ..stackmachine import Interp, Lin, Unsupported
 from .effects import switch_cases
 
@@ -287,6 +287,7 @@ def run_fields(chk, F):
         raise AnalysisBroken("expected clone + 3 clone_deeper, found %d" % len(clones))
     for fn in clones:
         tag = "%s/%d" % (fn["name"], len(fn["params"]))
+        fn = inline_tail_delegate(fn, F)        # `return data->clone_with(map_symbol, clone_sub)`: judge the worker
         asg = _assigned_fields(fn)
         ctor = [n for n in walk(fn["body"]) if n.get("k") == "construct" and n.get("cls") == "UTAP::expression_t"
                 and len(n.get("args", [])) == 2]
